@@ -127,7 +127,7 @@ Section Budget.
     | Some c1 => bind (dict_loop (S (len s)) s c1 [] []) (fun m c2 => POk (ODict m) c2)
     end.
 
-  (* the `Some(b)` arm of PDFObjP::parse_internal after the digit / '-' / '.' test:
+  (* the `Some(b)` arm of PDFObjP::parse_internal after the digit / '-' / '+' / '.' test:
      RealP, is_integer, then the look-ahead  ws+ IntegerP ws+ "R"  with its rewinds *)
   Definition number_or_ref (s : bytes) (c : nat) : pres obj :=
     bind (real s c) (fun r c1 =>                            (* real.parse(buf)? *)
@@ -186,8 +186,8 @@ Section Budget.
             | Some 60%N => dict_p s c'
             | _ => bind (hexstring s c') (fun v c2 => POk (OStr (lv_val v)) c2)
             end))
-      else if (negb (is_digit_b b) && negb (N.eqb b 45) && negb (N.eqb b 46))%bool then
-        PErr EGuard c                                       (* "not at PDF object" *)
+      else if (negb (is_digit_b b) && negb (N.eqb b 45) && negb (N.eqb b 43) && negb (N.eqb b 46))%bool then
+        PErr EGuard c                                       (* "not at PDF object"; '+' admitted since repo commit 8188ffd *)
       else number_or_ref s c
     end.
 
@@ -319,7 +319,7 @@ Section Counter.
             end
           else (PPanic, cur)
         else (PPanic, cur)
-      else if (negb (is_digit_b b) && negb (N.eqb b 45) && negb (N.eqb b 46))%bool then
+      else if (negb (is_digit_b b) && negb (N.eqb b 45) && negb (N.eqb b 43) && negb (N.eqb b 46))%bool then
         (PErr EGuard c, cur)
       else (number_or_ref s c, cur)
     end.
@@ -409,9 +409,10 @@ Definition maybe_stream (ctx : octx) (o : lv obj) (s : bytes) (c : nat)
   | _ => POk (v, os, oe, None) c
   end.
 
-(* IndirectP::parse_internal; [b] = levels left in the context (max_depth - cur_depth) *)
-Definition indirect_internal (rel : bool) (b : nat) (ctx : octx) (s : bytes) (c : nat) : pres (lv indirect) :=
-  let start := c in
+(* IndirectP::parse_internal, cut in two at the point where the object has been parsed.
+   [b] = levels left in the context (max_depth - cur_depth).
+   First half: `num gen obj` and the object; yields (num, gen, located object). *)
+Definition indirect_head (rel : bool) (b : nat) (s : bytes) (c : nat) : pres (Z * Z * lv obj) :=
   bind (integer s c) (fun num c1 =>
     let num := lv_val num in
     if negb (int_is_usize num) then setc s c (fun c' => PErr EGuard c')
@@ -427,22 +428,31 @@ Definition indirect_internal (rel : bool) (b : nat) (ctx : octx) (s : bytes) (c 
       | Some c5 =>
         bind (ws_eol true s c5) (fun _ c6 =>
         bind (parse_obj rel b s c6) (fun o c7 =>            (* parse_pdf_obj(self.ctxt, buf)? *)
-        bind (maybe_stream ctx o s c7) (fun ob c8 =>
-          let '(v, os, oe, strm) := ob in
-          bind (ws_eol true s c8) (fun _ c9 =>
-          match exact kw_endobj s c9 with
-          | None => PErr EGuard c9                          (* "invalid endobject tag" *)
-          | Some c10 =>
-            match usize_N num, usize_N gen with
-            | Some n, Some g =>
-              match octx_get ctx (n, g) with                (* self.ctxt.register_obj(&ind) *)
-              | None => POk (mkInd n g v os oe strm, start, c10) c10
-              | Some _ => PErr EGuard c10                   (* "non-unique object id" *)
-              end
-            | _, _ => PPanic
-            end
-          end))))
+          POk (num, gen, o) c7))
       end)))).
+
+(* second half: stream detection, endobj, registration; [start] is the cursor at `num` *)
+Definition indirect_tail (ctx : octx) (start : nat) (num gen : Z) (o : lv obj) (s : bytes) (c : nat)
+  : pres (lv indirect) :=
+  bind (maybe_stream ctx o s c) (fun ob c8 =>
+    let '(v, os, oe, strm) := ob in
+    bind (ws_eol true s c8) (fun _ c9 =>
+    match exact kw_endobj s c9 with
+    | None => PErr EGuard c9                                (* "invalid endobject tag" *)
+    | Some c10 =>
+      match usize_N num, usize_N gen with                   (* usize_val(): unwrap *)
+      | Some n, Some g =>
+        match octx_get ctx (n, g) with                      (* self.ctxt.register_obj(&ind): Some(old) iff already defined *)
+        | None => POk (mkInd n g v os oe strm, start, c10) c10
+        | Some _ => PErr EGuard c10                         (* "non-unique object id" *)
+        end
+      | _, _ => PPanic
+      end
+    end)).
+
+Definition indirect_internal (rel : bool) (b : nat) (ctx : octx) (s : bytes) (c : nat) : pres (lv indirect) :=
+  bind (indirect_head rel b s c) (fun h c7 =>
+    let '(num, gen, o) := h in indirect_tail ctx c num gen o s c7).
 
 (* impl ParsleyParser for IndirectP / parse_pdf_indirect_obj *)
 Definition indirect_p (rel : bool) (b : nat) (ctx : octx) (s : bytes) (c : nat) : pres (lv indirect) :=
@@ -475,7 +485,8 @@ Definition deep_buf (kind : bytes) (n : nat) : option bytes :=
   else if bytes_eqb kind (B "m") then Some (rep_alt n kw_lbrack (B "<</a"))
   else None.
 
-(* "num.gen=obj;num.gen=obj" (later entries replace earlier ones, as BTreeMap::insert does) *)
+(* "num.gen=obj;num.gen=obj": register_obj keeps the FIRST definition of an id (repo commit f218988) and
+   octx_get returns the first match, so entries are appended *)
 Fixpoint split_on (sep : N) (s : bytes) (cur : bytes) : list bytes :=
   match s with
   | [] => [rev cur]
@@ -492,7 +503,7 @@ Definition read_ctx (t : bytes) : option octx :=
         match split_on 61 part [] with                      (* '=' *)
         | [id; o] =>
           match split_on 46 id [], read_obj_tok o with      (* '.' *)
-          | [n; g], Some v => Some (((parse_N n, parse_N g), v) :: ctx)
+          | [n; g], Some v => Some (ctx ++ [((parse_N n, parse_N g), v)])
           | _, _ => None
           end
         | _ => None
